@@ -104,7 +104,10 @@ def inputs():
                b"HTTP/1.1\t200\tOK", b"HTTP/1.1 200 caf\xe9"):
         add("status:%r" % sl, resp(status=sl, framing=(b"Content-Length: 2",), body=b"ok"))
     add("eol-lf", resp(framing=(b"Content-Length: 2",), body=b"ok", eol=b"\n"), "either")
-    add("fold", resp(headers=(b"X-H: 1", b"  more"), framing=(b"Content-Length: 2",), body=b"ok"), "either")
+    add("fold", resp(headers=(b"X-H: 1", b"  more"), framing=(b"Content-Length: 2",), body=b"ok"), ("fold", "1 more"))
+    for lab, cont, want in (("nbsp", b" 2\xa0", "1 2\xa0"), ("nel-lead", b" \x852", "1 \x852"), ("ff", b" 2\x0c", "reject"),
+                            ("vt-lead", b" \x0b2", "reject"), ("us", b" 2\x1f", "reject"), ("cr", b" 2\r", "reject")):
+        add("fold:" + lab, resp(headers=(b"X-H: 1", cont), framing=(b"Content-Length: 2",), body=b"ok"), ("fold", want))
     add("leading-blank", resp(framing=(b"Content-Length: 2",), body=b"ok", pre=b"\r\n"), "either")
     add("hdr-no-colon", resp(headers=(b"X-H 1",), framing=(b"Content-Length: 2",), body=b"ok"))
     add("hdr-space-colon", resp(headers=(b"X-H : 1",), framing=(b"Content-Length: 2",), body=b"ok"))
@@ -186,11 +189,11 @@ def reference(data, method, decompress):
     return ("accept", r.code, hdrs, body)
 
 
-def execute(data, segs, method, decompress, streaming, timeouts):
+def execute(data, segs, method, decompress, streaming, timeouts, maxbody=None):
     from tornado.httpclient import HTTPRequest
     chunks = []
     with World() as w:
-        client = make_client(w, max_body_size=MAXBODY)
+        client = make_client(w, max_body_size=MAXBODY if maxbody is None else maxbody)
         kw = dict(method=method, decompress_response=decompress)
         if streaming:
             kw["streaming_callback"] = chunks.append
@@ -222,9 +225,21 @@ def judge(label, ov, data, method, decompress, streaming, timeouts, obs):
     res, streamed, needed_timer, logs, errs, closed = obs
     bad = []
     ref = reference(data, method, decompress)
+    fold = None
+    if isinstance(ov, tuple) and ov[0] == "fold":
+        # obs-fold: the client may refuse it; if it accepts, the value is the unfolded one (only SP / HTAB trimmed),
+        # and a folded line with a character that no field value may contain must not be accepted
+        fold = ov[1]
+        ov = "either"
     if ov == "either":
         # classes where the strict reader and a lenient-but-correct client may differ
         ref = ("either", "designated:" + label.split(":")[0])
+    if fold is not None and res[0] == "ok":
+        if fold == "reject":
+            bad.append(("accepted-rejected-stream:fold-with-bad-char", "folded header line with a control character accepted: "
+                        "headers %r" % (res[3].get("x-h"),)))
+        elif res[3].get("x-h") != [fold]:
+            bad.append(("headers:fold", "folded header X-H read as %r, expected %r" % (res[3].get("x-h"), [fold])))
     if res[0] == "pending":
         bad.append(("never-completes", "fetch still pending after EOF and all timers"))
         return bad, ref
@@ -300,6 +315,39 @@ class C08(Check):
                 if k % nsl != s:
                     continue
                 self.run_case(label, data, ov, cfg, tier, st)
+        if s == 0:
+            self.run_zero_limit(st)
+
+    def run_zero_limit(self, st):
+        """max_body_size=0 is a limit (no body bytes at all), not 'unset'."""
+        want_labels = ("cl", "cl0", "chunked", "gzip-cl", "gzip-empty-body")
+        for label, data, ov in inputs():
+            if label not in want_labels and not (label == "cl-max"):
+                continue
+            for decompress in (False, True):
+                for streaming in (False, True):
+                    obs = execute(data, [data], "GET", decompress, streaming, True, maxbody=0)
+                    st.ev()
+                    key = h(("maxbody0", label, decompress, streaming))
+                    st.states.add(key)
+                    st.nontrivial.add(key)
+                    ref = reference(data, "GET", False)
+                    res, streamed = obs[0], obs[1]
+                    body_len = len(ref[3]) if ref[0] == "accept" else None
+                    if res[0] == "ok":
+                        got = streamed if streaming else (res[4] or b"")
+                        if got or body_len:
+                            st.violation("max_body_size-0:body-delivered", "input %s with max_body_size=0: fetch returned %r with %d "
+                                         "body bytes (wire body %r bytes)" % (label, res[1], len(got), body_len),
+                                         {"label": label, "cfg": ["GET", decompress, streaming, True], "segs": [len(data)], "maxbody": 0})
+                    elif body_len == 0 and ov != "either":
+                        st.violation("max_body_size-0:empty-body-refused", "input %s (empty body) refused with max_body_size=0: %r"
+                                     % (label, res[:3]), {"label": label, "cfg": ["GET", decompress, streaming, True],
+                                                          "segs": [len(data)], "maxbody": 0})
+                    if streaming and streamed and res[0] != "ok":
+                        st.violation("max_body_size-0:bytes-streamed-before-error", "input %s: %d bytes streamed with max_body_size=0"
+                                     % (label, len(streamed)), {"label": label, "cfg": ["GET", decompress, streaming, True],
+                                                                "segs": [len(data)], "maxbody": 0})
 
     def run_case(self, label, data, ov, cfg, tier, st):
         method, decompress, streaming, timeouts = cfg
@@ -348,7 +396,7 @@ class C08(Check):
         for n in case["segs"]:
             segs.append(data[p:p + n])
             p += n
-        obs = execute(data, segs, *cfg)
+        obs = execute(data, segs, *cfg, maxbody=case.get("maxbody"))
         bad, ref = judge(label, ov, data, cfg[0], cfg[1], cfg[2], cfg[3], obs)
         return "input %s %r\nconfig %r\nreference %r\nobserved %r\nverdict %r" % (label, data, cfg, ref, obs, bad)
 
